@@ -17,9 +17,9 @@ const (
 	clsOutOfSync
 	clsGetFail
 	clsRuntimeFail
-	clsLoadedMovable // small load that fits on a front shard (scale-down transfer candidate)
-	clsOverBig       // process-overloaded by two targets none of which fits anywhere else (60+60 next to loaded shards)
-	clsOverSmall     // process-overloaded by targets that can be relieved (90 + 30)
+	clsLoadedMovable    // small load that fits on a front shard (scale-down transfer candidate)
+	clsOverBig          // process-overloaded by two targets none of which fits anywhere else (60+60 next to loaded shards)
+	clsOverSmall        // process-overloaded by targets that can be relieved (90 + 30)
 	clsIdleExpiredStale // idle for long, but its Prometheus still reports 65 stale head series
 )
 
@@ -144,6 +144,9 @@ func c07Gen(c *chk.Ctx) func(emit func(*h1.Scenario)) {
 					return
 				}
 				for k := range classes {
+					if n == 4 && (classes[k] == clsOutOfSync || classes[k] == clsRuntimeFail || classes[k] == clsLoadedMovable) {
+						continue // four shards: seven classes (the unhealthy ones are represented by not-ready)
+					}
 					cls[i] = k
 					rec(i + 1)
 				}
